@@ -451,7 +451,10 @@ type c54Fact struct {
 func c54FactsDeep(d engine.DeepSite, gf *engine.Fn, cond ast.Expr, onTrue bool, depth int) []c54Fact {
 	var out []c54Fact
 	for _, f := range c54Facts(gf, cond, onTrue, 2) {
-		f.fn = gf
+		if f.fn == nil {
+			f.fn = gf
+		}
+		gf := f.fn
 		id, isId := ast.Unparen(f.e).(*ast.Ident)
 		if !isId || depth <= 0 {
 			out = append(out, f)
@@ -510,9 +513,41 @@ func c54Facts(f *engine.Fn, cond ast.Expr, onTrue bool, depth int) []c54Fact {
 		}
 	}
 	if id, ok := cond.(*ast.Ident); ok && depth > 0 {
-		if def := ceSingleDef(f, f.Info().ObjectOf(id)); def != nil {
+		obj := f.Info().ObjectOf(id)
+		if def := ceSingleDef(f, obj); def != nil {
 			if _, isIdx := ast.Unparen(def).(*ast.IndexExpr); !isIdx {
 				return c54Facts(f, def, onTrue, depth-1)
+			}
+		}
+		// `a, b := helper(...)`: b is what the helper returns at that position
+		if call, idx := ceTupleDef(f, obj); call != nil {
+			if g := f.Prog.FnOf(c52CalleeFunc(f.Info(), call)); g != nil {
+				var rets []*ast.ReturnStmt
+				engine.InspectBody(g, func(n ast.Node) {
+					if r, ok := n.(*ast.ReturnStmt); ok {
+						rets = append(rets, r)
+					}
+				})
+				if len(rets) == 1 {
+					var res ast.Expr
+					if idx < len(rets[0].Results) {
+						res = rets[0].Results[idx]
+					} else if len(rets[0].Results) == 0 && g.Type.Results != nil {
+						// bare return of named results
+						k := 0
+						for _, fld := range g.Type.Results.List {
+							for _, nm := range fld.Names {
+								if k == idx {
+									res = nm
+								}
+								k++
+							}
+						}
+					}
+					if res != nil {
+						return c54Facts(g, res, onTrue, depth-1)
+					}
+				}
 			}
 		}
 	}
